@@ -1231,6 +1231,9 @@ class AliasInliner:
             return m.attr in rhs_attrs
         if isinstance(m, ast.Subscript) and isinstance(m.ctx, (ast.Store, ast.Del)):
             return has_sub
+        if isinstance(m, (ast.Yield, ast.YieldFrom, ast.Await)):
+            # control leaves the function: the consumer may change whatever the expression reads from the heap
+            return bool(rhs_attrs or has_sub)
         if isinstance(m, ast.Call):
             cn = self._call_name(m)
             if cn is None:
@@ -1335,6 +1338,10 @@ class AliasInliner:
                     if not _after(pw, pd):
                         continue  # before the binding (or re-run together with it)
                     if w is su:
+                        # `yield f(alias)`: the operand is evaluated before control leaves the function
+                        if isinstance(w, ast.Expr) and isinstance(w.value, (ast.Yield, ast.YieldFrom)) and not any(
+                                x is not w.value and self._invalidates(x, rhs_names, rhs_attrs, has_sub) for x in ast.walk(w)):
+                            continue
                         # `x.attr = f(alias)`: the right-hand side is evaluated before the store
                         if isinstance(w, (ast.Assign, ast.AugAssign, ast.AnnAssign)) and not any(
                             isinstance(c, ast.Call) and self._invalidates(c, rhs_names, rhs_attrs, has_sub) for c in ast.walk(w)
